@@ -58,7 +58,7 @@ Theorem C12_solve_window_partial : forall strict a hb c,
 Proof. exact solve_window_partial. Qed.
 Print Assumptions C12_solve_window_partial.
 
-(** solve_along_surface before the repair 8462ce5 (`result[0] < 0`) kept t = 0
+(** solve_along_surface before the repair cd06731 (`result[0] < 0`) kept t = 0
     (start point exactly on the surface with state "off"), unlike every other
     branch: positivity was refuted there (finding, fixed) ... *)
 Theorem C12_solve_along_zero_refuted :
@@ -126,7 +126,7 @@ Proof. exact surf_normal_is_unit_gradient. Qed.
 Print Assumptions C12_surf_normal_is_unit_gradient.
 
 (** ** Transforms *)
-(** SurfaceTranslator as coded (since the repair 9730bb5), every surface type *)
+(** SurfaceTranslator as coded (since the repair 564387d), every surface type *)
 Theorem C12_translate_sense : forall tra s p,
   surf_sense (translate_surface tra s) (tr_up tra p) = surf_sense s p.
 Proof. exact translate_sense. Qed.
